@@ -596,7 +596,7 @@ static void run_big(uint64_t which)
 static uint64_t nrandom(void)
 {
     if (is_clear_mode) return vrt_thorough ? 2000 : 200;
-    return vrt_thorough ? 100000 : 20000;
+    return vrt_thorough ? 200000 : 60000;
 }
 static uint64_t ncases(void)
 {
